@@ -200,4 +200,8 @@ Proof.
   - exfalso. unfold notify_all in C. cbn [cur set_workers] in C.
     destruct (cur s) eqn:PC; cbn [cur set_workers] in C; try (rewrite PC in C); try discriminate; try contradiction.
     destruct (live_pid _ p); cbn [cur set_pc set_workers] in C; try (rewrite PC in C); discriminate.
+  - exfalso. unfold notify_at in C. destruct (find_kid p (kids s)); try contradiction.
+    destruct (_ && _); try contradiction. cbn [cur set_workers] in C.
+    destruct (cur s) eqn:PC; cbn [cur set_workers] in C; try (rewrite PC in C); try discriminate; try contradiction.
+    destruct (p0 =? p); cbn [cur set_pc set_workers] in C; try (rewrite PC in C); discriminate.
 Qed.
